@@ -817,7 +817,10 @@ func genRebuild(r *rng.R, cw *casefile.Writer) {
 	w.do(Evt{Op: "rotate"})
 	thr := (n+p)/10 - p // survivors + parked <= (n+p)/10  <=>  rebuild
 	m := r.Intn(3)
-	if r.Chance(2, 3) {
+	switch r.Intn(3) {
+	case 0:
+		m = thr // exactly at the threshold
+	case 1:
 		m = thr - 2 + r.Intn(5)
 	}
 	if m < 0 {
